@@ -10,8 +10,8 @@ import (
 	auto "github.com/moorara/algo/automata"
 	"github.com/moorara/algo/grammar"
 
-	"github.com/gardenbed/emerge/internal/ebnf/parser"
 	"github.com/gardenbed/emerge/internal/ebnf/parser/spec"
+	"github.com/gardenbed/emerge/verif/defs"
 	"github.com/gardenbed/emerge/verif/ev"
 	"github.com/gardenbed/emerge/verif/ref/dfaops"
 	"github.com/gardenbed/emerge/verif/ref/regexref"
@@ -66,7 +66,7 @@ func unescape(s string) string {
 
 func (d def) pattern() string {
 	if d.Predef {
-		return parser.Predefs[d.Src]
+		return defs.Predefs[d.Src]
 	}
 	return d.Src
 }
